@@ -213,3 +213,122 @@ fn async_send_faults() {
         kani::cover!(r.is_err() && dev.radio.tx_ok == 1, "radio fault after a successful transmission");
     }
 }
+
+// ---- C10-H4: window timing and window parameters of the async front-end -----------------------------
+static mut T_LOG: Uq<([u64; 4], usize)> = Uq { magic: 0x6C7276007A110001, v: ([0; 4], 0) };
+static mut W_LOG: Uq<([u32; 4], usize)> = Uq { magic: 0x6C7276007A110002, v: ([0; 4], 0) };
+static mut W_EXP: Uq<(u32, u32, u32, u32)> = Uq { magic: 0x6C7276007A110003, v: (0, 0, 0, 0) }; // rx1 f, rx2 f, delay, tx ms
+
+struct TRadio {
+    lead: u32,
+    buffer: u32,
+}
+impl radio::PhyRxTx for TRadio {
+    type PhyError = ();
+    const MAX_RADIO_POWER: u8 = 20;
+    async fn tx(&mut self, _config: radio::TxConfig, _buf: &[u8]) -> Result<u32, ()> {
+        Ok(unsafe { W_EXP.v.3 })
+    }
+    async fn setup_rx(&mut self, config: radio::RxConfig) -> Result<(), ()> {
+        unsafe {
+            let n = W_LOG.v.1;
+            if n < 4 {
+                W_LOG.v.0[n] = config.rf.frequency;
+            }
+            W_LOG.v.1 = n + 1;
+            if let radio::RxMode::Single { ms } = config.mode {
+                crate::vcheck!(ms == self.buffer, "C10: the window is opened for the board's declared buffer time");
+            } else {
+                crate::vcheck!(false, "C10: Class A windows are single-shot");
+            }
+        }
+        Ok(())
+    }
+    async fn rx_continuous(&mut self, _rx_buf: &mut [u8]) -> Result<(usize, radio::RxQuality), ()> {
+        Err(())
+    }
+    async fn rx_single(&mut self, _buf: &mut [u8]) -> Result<radio::RxStatus, ()> {
+        Ok(radio::RxStatus::RxTimeout)
+    }
+    async fn low_power(&mut self) -> Result<(), ()> {
+        Ok(())
+    }
+}
+impl Timings for TRadio {
+    fn get_rx_window_lead_time_ms(&self) -> u32 {
+        self.lead
+    }
+    fn get_rx_window_buffer(&self) -> u32 {
+        self.buffer
+    }
+}
+struct TTimer;
+impl radio::Timer for TTimer {
+    fn reset(&mut self) {}
+    async fn at(&mut self, millis: u64) {
+        unsafe {
+            let n = T_LOG.v.1;
+            if n < 4 {
+                T_LOG.v.0[n] = millis;
+            }
+            T_LOG.v.1 = n + 1;
+        }
+    }
+    async fn delay_ms(&mut self, _millis: u64) {}
+}
+fn stub_send_t<RNG: RngCore, const N: usize>(
+    _m: &mut Mac,
+    _rng: &mut RNG,
+    _buf: &mut RadioBuffer<N>,
+    _d: &SendData<'_>,
+) -> mac::Result<(radio::TxConfig, mac::RxWindows, mac::FcntUp)> {
+    let (mut w1, mut w2) = (any_rf(), any_rf());
+    unsafe {
+        w1.frequency = W_EXP.v.0;
+        w2.frequency = W_EXP.v.1;
+    }
+    Ok((radio::TxConfig { pw: kani::any(), rf: any_rf() }, mac::RxWindows { rx1: w1, rx2: w2 }, 7))
+}
+fn stub_get_rx_delay_t(_m: &Mac, _f: &Frame, w: &Window) -> u32 {
+    let d = unsafe { W_EXP.v.2 };
+    match w {
+        Window::_1 => d,
+        Window::_2 => d + 1000,
+    }
+}
+
+//@h id=async_rx_window_timing props=C10 tier=quick build=dev-eu868-noc cost=120 timeout=1800
+//@bounds one fault-free Class A Device::send whose two windows time out: any negotiated RX1 delay 1..=15 s, any TX timestamp < 2^31 ms, any board lead time <= the RX1 delay and buffer time: the timer is armed at (delay + TX end - lead) for RX1 and one second later for RX2, the radio is configured with the RX1 then the RX2 parameters that Mac::send bound to this uplink, each window single-shot for the board's buffer time
+//@encodes async_device::Device::send, rx_downlink, between_windows (Class A), RxWindows::rx_config
+//@assumes Mac::{send, rx2_complete, get_rx_delay} replaced by contract stubs (window parameters and delays are the subject of rx_windows_* / macs_*_rxtiming); built without class-c
+#[kani::proof]
+#[kani::stub(Mac::send, stub_send_t)]
+#[kani::stub(Mac::rx2_complete, stub_rx2_complete)]
+#[kani::stub(Mac::get_rx_delay, stub_get_rx_delay_t)]
+#[kani::unwind(6)]
+fn async_rx_window_timing() {
+    crate::mac::verif_kani_lorawan_device_mac_common::vinit();
+    let (f1, f2, d, ms): (u32, u32, u32, u32) = (kani::any(), kani::any(), kani::any(), kani::any());
+    kani::assume(d >= 1000 && d <= 15000 && ms < 0x7FFF_0000 && f1 != f2);
+    let lead: u32 = kani::any();
+    kani::assume(lead <= d);
+    unsafe {
+        G_FCNT.v = 7;
+        W_EXP.v = (f1, f2, d, ms);
+        T_LOG.v = ([0; 4], 0);
+        W_LOG.v = ([0; 4], 0);
+    }
+    let radio = TRadio { lead, buffer: kani::any() };
+    let mut dev: Device<TRadio, TTimer, NoRng, 256, 1> =
+        Device::new(region::Configuration::new(region::Region::EU868), radio, TTimer, NoRng);
+    let payload = [0u8; 4];
+    let r = block_on(dev.send(&payload, 1, false));
+    crate::vcheck!(r.is_ok(), "C10: a fault-free send whose windows time out completes");
+    unsafe {
+        crate::vcheck!(T_LOG.v.1 == 2 && W_LOG.v.1 == 2, "C10: exactly two windows are opened after an unanswered uplink");
+        crate::vcheck!(T_LOG.v.0[0] == (d as u64) + (ms as u64) - (lead as u64), "C10: RX1 opens at the negotiated delay after the end of the transmission, less the board's lead time");
+        crate::vcheck!(T_LOG.v.0[1] == (d as u64) + 1000 + (ms as u64) - (lead as u64), "C10: RX2 opens one second after RX1");
+        crate::vcheck!(W_LOG.v.0[0] == f1 && W_LOG.v.0[1] == f2, "C10: RX1 then RX2 use the parameters bound to this uplink");
+        kani::cover!(r.is_ok() && T_LOG.v.1 == 2 && lead > 0 && d == 5000, "send completed with both windows opened");
+    }
+}
